@@ -63,6 +63,7 @@ pub fn c15_case(combo: u64, rng: &mut Rng) -> Case {
     }
     let mut p = crate::gen::Profile::default();
     p.faults = rng.chance(1, 2);
+    p.monitors = true;
     let knobs = crate::gen::gen_knobs(rng, &p);
     Case { cap, ctor: Flavour::Async, class, mask: rng.next(), knobs, tasks, main_keeps_roots: false, lock_harness: false, epilogue: vec![] }
 }
@@ -109,6 +110,7 @@ pub fn c14_case(combo: u64, rng: &mut Rng) -> Case {
     // freeze the victim (task id 1) after j own decisions, long enough for the prober to finish alone;
     // the blocked victim is released when the prober's handles go away
     knobs.freeze = Some((1, j, 3000));
+    knobs.monitors = false;
     let class = *rng.pick(&[Class::U32, Class::SmallDrop, Class::Big40Drop, Class::Usize]);
     Case { cap, ctor: Flavour::Sync, class, mask: rng.next(), knobs, tasks, main_keeps_roots: false, lock_harness: false, epilogue: vec![] }
 }
